@@ -76,6 +76,8 @@ PROGRAMS = [
     ("old_value_in_condition", "a = 0\ns = 0\nc = 0\nwhile true:\n    a = Bernoulli(1/2)\n    if a == 1:\n        c = c + s\n    end\n    s = Cos(a)\nend\n", ["c", "c*s", "s"]),
     # a functional variable computed in the initial block from a draw that the loop redraws (s stays what it was)
     ("init_func_of_redrawn", "a = Bernoulli(1/2)\ns = Sin(a)\nx = 0\nwhile true:\n    a = Bernoulli(1/3)\n    x = x + a*s\nend\n", ["s", "x", "a*s"]),
+    # the initial block reads a functional variable and then reuses it for another function value
+    ("init_reuse", "a = Bernoulli(1/3)\ns = Sin(a)\ny = s*a\ns = Cos(a)\nz = y*s\nw = 0\nwhile true:\n    w = w + z\nend\n", ["z", "w", "y", "s"]),
     # conditioned functional assignments: in a branch, under the loop guard, nested, with a constant argument
     ("cond_exp_of_draw", "f = 0\ny = 0\nu = 0\ns = 0\nwhile true:\n    f = Bernoulli(1/2)\n    u = DiscreteUniform(0, 1)\n    if f == 1:\n        y = Exp(u)\n    end\n    s = s + y\nend\n",
      ["y", "s", "y*u", "y**2"]),
@@ -172,7 +174,8 @@ def table_part(run):
             ("Normal", ["0", "1"], "normal", [F(0), F(1)]), ("Uniform", ["0", "1"], "uniform", [F(0), F(1)])]
     for i, (name, params, fam, ps) in enumerate(cont):
         items.append({"fid": f"e{i}", "name": name, "params": params, "exponents": [(0, 0, c, "exp") for c in (1, 2, 3)]})
-    consts = [("Sin", "1"), ("Cos", "2"), ("Exp", "1"), ("Sin", "0"), ("Cos", "0"), ("Exp", "-1"), ("Sin", "1/2"), ("Exp", "2")]
+    consts = [("Sin", "1"), ("Cos", "2"), ("Exp", "1"), ("Sin", "0"), ("Cos", "0"), ("Exp", "-1"), ("Sin", "1/2"), ("Exp", "2"),
+              ("Exp", "-60"), ("Exp", "-47"), ("Exp", "30")]          # very small and very large values (relative rounding)
     for i, (fn, c) in enumerate(consts):
         items.append({"fid": f"c{i}", "func": fn, "const": c, "exponents": [(k, 0, 0, "const") for k in (1, 2, 3)]})
     jobs = [{"kind": "funcmoment", "id": f"fm{i}", "items": items[i:i + 2], "timeout": 900} for i in range(0, len(items), 2)]
